@@ -59,10 +59,10 @@ def run(ctx):
         for w in range(k):
             plan = []
             for _ in range(rng.choice([1, 1, 2])):
-                n = rng.choice([0, 1, eps, eps + 1, 2 * eps + 1])
-                plan.append([rng.randrange(3), list(range(nxt, nxt + n))]); nxt += n
+                n = rng.choice([0, 1, eps, eps + 1, 2 * eps, 2 * eps + 1])
+                plan.append([rng.randrange(3), list(range(nxt, nxt + n)), rng.random() < 0.3]); nxt += n
             plans.append(plan)
-        if not any(ids for p in plans for _, ids in p):
+        if not any(x[1] for p in plans for x in p):
             plans[0][0][1] = [nxt, nxt + 1]; nxt += 2
         delays = [rng.choice([0, 0, 0.002, 0.01]) for _ in range(k)]
         c = {"fmt": ["fb", "npz", "tfrec"][i % 3], "eps": eps, "plans": plans, "delays": delays}
@@ -92,7 +92,7 @@ def run(ctx):
         for plans_k, rets in ((c["plans"], resp["returns"]), (c.get("plans2"), resp.get("returns2"))):
             if plans_k is None: continue
             exp_first = [p[0][1][0] if p and p[0][1] else -1 for p in plans_k]
-            if rets is None or len(rets) != len(plans_k) or [r[2] for r in rets] != exp_first or [r[1] for r in rets] != [sum(len(ids) for _, ids in p) for p in plans_k]:
+            if rets is None or len(rets) != len(plans_k) or [r[2] for r in rets] != exp_first or [r[1] for r in rets] != [sum(len(x[1]) for x in p) for p in plans_k]:
                 ctx.report(dict(sig, kind="return-order"), f"return values {rets} are not in argument order", {"case": c}); bad_ret = True
         if bad_ret: continue
         all_plans = c["plans"] + (c.get("plans2") or [])
@@ -109,11 +109,11 @@ def run(ctx):
         if per_split != per_split_s:
             ctx.report(dict(sig, kind="differs-from-sequential"), f"parallel run reads {per_split}, single-process run reads {per_split_s}", {"case": c}); continue
         for s in range(3):
-            want = [v for p in all_plans for sp_, ids in p if sp_ == s for v in ids]
+            want = [v for p in all_plans for sp_, ids, *_r in p if sp_ == s for v in ids]
             if collections.Counter(per_split.get(s, [])) != collections.Counter(want):
                 ctx.report(dict(sig, kind="multiset"), f"split {s}: read {per_split.get(s)} written {want}", {"case": c}); break
             for p in all_plans:     # each writer's examples in its own order
-                mine = [v for sp_, ids in p if sp_ == s for v in ids]
+                mine = [v for sp_, ids, *_r in p if sp_ == s for v in ids]
                 if [x for x in per_split.get(s, []) if x in set(mine)] != mine:
                     ctx.report(dict(sig, kind="writer-order"), f"split {s}: writer order {mine} not preserved in {per_split.get(s)}", {"case": c}); break
         # per-process write sets: workers pairwise disjoint, each inside one writer directory
